@@ -12,7 +12,7 @@ EXPLANATION = ("Theorems over the run-loop model with guards and reset() regener
                "correspondence.")
 ASSUMPTIONS = ["the throttle theorems assume that no operation reads or writes op_count (hypothesis hexec; true of the regenerated "
                "code by inspection of Generated/Ops.lean: op_count occurs only in reset and the run loop)",
-               "process-level state outside the VirtualMachine object is audited (default arguments), not modelled"]
+               "process-level state outside the VirtualMachine object is audited (default arguments) and exercised (file sequences through main() in one process), not modelled"]
 
 
 def run(ctx):
@@ -20,6 +20,8 @@ def run(ctx):
     r["distinct_nontrivial"] = r["programs"]
     r["rule"] = ("generated terminating programs; per program: run twice on one machine, after another program, throttle sweep "
                  "n in {0,1,2,len-1,len,len+1,len+2,random} vs step-by-step prefix state; distinct = distinct programs")
+    r["rule"] += ("; process level: main() called repeatedly in one process on a directory whose main.hera / included lib.hera are "
+                  "rewritten between the calls, each run against the same files in a never-seen directory")
     r["streams"] = {"isolation": r["evaluations"]}
     r["samples"] = [{"throttle_points": "0,1,2,len-1,len,len+1,len+2"}]
     return r
